@@ -335,7 +335,6 @@ func shrink(in *input) *input {
 	return in
 }
 
-
 // freshSequence builds the inputs one after the other in a fresh child process and returns
 // one digest per position.
 func freshSequence(seq []*input) ([]digest, error) {
@@ -579,7 +578,7 @@ func run(c *hx.Ctx) error {
 		j := c.R.Intn(i + 1)
 		progs[i], progs[j] = progs[j], progs[i]
 	}
-	ins = append(ins, progs[:min(len(progs), c.N(400, len(progs)))]...)
+	ins = append(ins, progs[:min(len(progs), c.N(300, len(progs)))]...)
 	res.Sample(map[string]string{"first sampled corpus programs": progs[0].Name + " " + progs[1].Name + " " + progs[2].Name})
 	for i := 0; i < c.N(300, 6000); i++ {
 		g := &gen{r: c.R}
@@ -679,7 +678,7 @@ func run(c *hx.Ctx) error {
 		err    error
 	}
 	var triples []*triple
-	for k := 0; k < c.N(300, 3000) && len(cand) > 1; k++ {
+	for k := 0; k < c.N(200, 3000) && len(cand) > 1; k++ {
 		ia, ib := cand[c.R.Intn(len(cand))], cand[c.R.Intn(len(cand))]
 		if ia != ib {
 			triples = append(triples, &triple{a: ins[ia], b: ins[ib]})
